@@ -31,6 +31,7 @@ def fixed_cases(tier):
     out += [{"limits_matrix": r} for r in ("i8", "u8", "i16", "u32", "i64", "u64", "i128", "usize")]
     out += [{"spec": spec, "cfg": S.simple_config(["MIN", "MAX", "next", "next_back"]), "seed": 2} for spec in C.block_specs()]
     out += [{"spec": spec, "cfg": S.simple_config(["MIN", "MAX", "next", "next_back"]), "seed": 3} for spec in C.tied_run_specs()]
+    out += [{"spec": spec, "cfg": S.simple_config(["MIN", "MAX", "next", "next_back"]), "seed": 4} for spec in C.structured_specs()]
     # run-length matrix: runs whose length is on / next to a power of two
     out += [{"spec": spec, "cfg": S.simple_config(["MIN", "MAX", "next", "next_back"]), "seed": 1} for spec in C.run_length_specs({(1, 64), (63, 64), (64, 64), (65, 64), (64, 1), (65, 65), (127, 128), (128, 128), (129, 63), (255, 1), (256, 63), (257, 65), (2, 128)})]
     return out
